@@ -15,6 +15,10 @@ class InjectedFault(RuntimeError):
     """The exception raised by every injected fault."""
 
 
+class InjectedValueFault(ValueError):
+    """An injected fault that is not a RuntimeError (as a bad index or a failed conversion would be)."""
+
+
 class InjectedAbort(BaseException):
     """User code that is interrupted rather than failing (SystemExit / KeyboardInterrupt style):
     raised by some generator bodies."""
@@ -226,7 +230,7 @@ def default_passes(h):
     return list(h.elab.Elaborator.default().passes)
 
 
-def make_boundary_fault(h, module_obj, label, counter, dirty=False, abort=False):
+def make_boundary_fault(h, module_obj, label, counter, dirty=False, abort=False, valuefault=False):
     """A fresh `ElabPass` subclass (own done-set) that raises when it visits `module_obj`
     (visit order is the pass's own depth-first order).  `dirty`: it is a *rewriting* pass that
     fails half-way: one signal of the module has been widened by a bit when the exception is
@@ -245,6 +249,8 @@ def make_boundary_fault(h, module_obj, label, counter, dirty=False, abort=False)
                 if abort:  # the pass is interrupted rather than failing (KeyboardInterrupt style)
                     counter["aborted"] = counter.get("aborted", 0) + 1
                     raise InjectedAbort(f"injected interruption {label}")
+                if valuefault:  # an exception class other than RuntimeError
+                    raise InjectedValueFault(f"injected fault {label}")
                 raise InjectedFault(f"injected fault {label}")
             return module
 
